@@ -4,6 +4,7 @@ ancestors (C06)."""
 from __future__ import annotations
 
 import asyncio
+import copy
 import itertools
 import random
 import sys
@@ -289,7 +290,110 @@ def suite_connect(rng: random.Random, tier: str) -> Suite:
     return s
 
 
-ALL_WORLD = {"versions": suite_versions, "connect": suite_connect}
+KINDS = {
+    # kind: (simulator type, model description without "public"/"params")
+    "TB": ("time-based", {"attrs": ["x", "y", "z"]}),
+    "TB_ANY": ("time-based", {"attrs": ["x"], "any_inputs": True}),
+    "EV": ("event-based", {"attrs": ["x", "y", "z"]}),
+    "EV_ANY": ("event-based", {"attrs": ["x"], "any_inputs": True}),
+    "HY": ("hybrid", {"attrs": ["x", "y", "z"], "trigger": ["x"], "non-persistent": ["z"]}),
+    "HY_PLAIN": ("hybrid", {"attrs": ["x", "y", "z"]}),
+    "HY_NT": ("hybrid", {"attrs": ["x", "y", "z"], "non-trigger": ["y", "z"], "persistent": ["x", "y"], "non-persistent": ["z"]}),
+    "HY_ANY": ("hybrid", {"attrs": ["x", "y"], "any_inputs": True}),
+    "HY_ANY_T": ("hybrid", {"attrs": ["x", "y"], "any_inputs": True, "trigger": ["x"]}),
+    "HY_ANY_NT": ("hybrid", {"attrs": ["x", "y"], "any_inputs": True, "non-trigger": ["y"], "non-persistent": ["y"]}),
+}
+# descriptions World.start must reject (ValueError): persistent list that leaves an attribute unclassified; trigger outside attrs
+BAD_KINDS = {
+    "HY_BAD_P": ("hybrid", {"attrs": ["x", "y", "z"], "persistent": ["x", "y"]}),
+    "TB_BAD_T": ("time-based", {"attrs": ["x", "y"], "trigger": ["x"]}),
+}
+
+
+
+def install_kind_stubs():
+    for kind, (ty, d) in {**KINDS, **BAD_KINDS}.items():
+        meta = {"api_version": "3.0", "type": ty, "models": {"M": {"public": True, "params": [], **copy.deepcopy(d)}}}
+        base = make_stub(True, True, meta)
+
+        def create(self, num, model, **kw):                 # fresh entity ids on every call
+            k = getattr(self, "_n", 0)
+            self._n = k + num
+            return [{"eid": f"E{k + i}", "type": model} for i in range(num)]
+        setattr(MOD, "K_" + kind, type("K_" + kind, (base,), {"create": create}))
+
+
+
+KIND_AID = {"x": 0, "y": 1, "z": 2, "q": 9}
+
+
+def kind_desc_line(kind, group):
+    ty, d = {**KINDS, **BAD_KINDS}[kind]
+    def lst(key):
+        return "-" if key not in d else s_list([KIND_AID[a] for a in d[key]])
+    return f"{ty} {s_list(group)} {int(d.get('any_inputs', False))} {s_list([KIND_AID[a] for a in d['attrs']])} {lst('trigger')} {lst('non-trigger')} {lst('persistent')} {lst('non-persistent')}"
+
+
+def suite_connect_kinds(rng: random.Random, tier: str) -> Suite:
+    """World.start + World.connect over the model kinds: the model's parse_attrs feeding the model's connect, against the code."""
+    s = Suite("connect-kinds")
+    s.rule = ("World.start of two simulators in one group with every ordered pair of ten model kinds (time-based / event-based / hybrid x any_inputs x "
+              "trigger given directly or as complement of non-trigger x persistence given either way) + one inconsistent description, then World.connect "
+              "for source attribute x destination attribute (declared / undeclared) x time_shifted x weak x initial data; compared: start accepted or "
+              "ValueError, connect ok or ScenarioError, and the connection tables of both simulators afterwards")
+    install_kind_stubs()
+    names = ["x", "y", "z", "q"]
+    params = list(itertools.product(names, names, (0, 1), (False, True), (False, True)))
+    if tier != "quick":
+        s.exhaustive = True
+    pairs = list(itertools.product(KINDS, KINDS)) + [(b, "TB") for b in BAD_KINDS] + [("HY", b) for b in BAD_KINDS]
+    for sk, dk in pairs:
+        todo = params if tier != "quick" else rng.sample(params, 6)
+        if sk in BAD_KINDS or dk in BAD_KINDS:
+            todo = todo[:1]
+        for (sa, da, ts, weak, init) in todo:
+            cache = rng.random() < 0.5
+            w = mosaik.World({k: {"python": f"verif_stubs:K_{k}"} for k in (sk, dk)}, asyncio_loop=asyncio.new_event_loop(), skip_greetings=True, cache=cache)
+            try:
+                with warnings.catch_warnings():
+                    warnings.simplefilter("ignore")
+                    facs = []
+                    s.add(f"w.new {int(cache)}", "ok", "build")
+                    with w.group():
+                        for k, sid in ((sk, "S0"), (dk, "S1")):
+                            try:
+                                facs.append(w.start(k, sim_id=sid))
+                                r = "ok"
+                            except ValueError:
+                                r = "ValueError"
+                            s.add("w.start " + kind_desc_line(k, [0]), r, f"start:{k}:{r}")
+                    if len(facs) < 2:
+                        continue
+                    kw = {}
+                    if ts:
+                        kw["time_shifted"] = ts
+                    if weak:
+                        kw["weak"] = True
+                    if init:
+                        kw["initial_data"] = {sa: 5}
+                    se, de = facs[0].M(), facs[1].M()
+                    try:
+                        w.connect(se, de, (sa, da), **kw)
+                        r = "ok"
+                    except ScenarioError:
+                        r = "ScenarioError"
+                    except Exception as e:  # noqa: BLE001
+                        r = type(e).__name__
+                    s.add(f"w.connect 0 0 1 0 1 {KIND_AID[sa]} {KIND_AID[da]} 0 {ts} {int(weak)} " + (f"1 {KIND_AID[sa]} 5" if init else "0"),
+                          r, f"{sk}>{dk}:{r}")
+                    s.add("w.tables 0", tables(w, 0), "tables")
+                    s.add("w.tables 1", tables(w, 1), "tables")
+            finally:
+                close_world(w)
+    return s
+
+
+ALL_WORLD = {"versions": suite_versions, "connect": suite_connect, "connect-kinds": suite_connect_kinds}
 
 
 # ------------------------------------------------------------------ C06: cycle detection / triggering ancestors
